@@ -223,6 +223,48 @@ CHECKS = {
         level_note="restore exactness is oracle-level (engines are black boxes); SameSstSound is a hypothesis",
         technique="Lean 4 proof (inode-sharing invariant; purge algorithm) + differential run of the real purge + backup/restore oracle on real engines",
     ),
+    'C17': dict(
+        gens=['Place'],
+        props='ZanVerif.Props.C17',
+        protos=[dict(name='place', quick_seeds=1, thorough_seeds=5)],
+        rule="random topologies: 1..40 node ids (unpadded numbers and real-looking ip ids, so string order differs from numeric order), 1..4 DC tags "
+             "(incl. untagged nodes), even and uneven filling, partitions 1..64 (a quarter of them multiples of the node count), replica 1..5, both "
+             "algorithms; for v2 chains of up to 6 layouts where the previous answer of the REAL code comes back as the old layout after node loss / "
+             "addition / replacement, with mid-migration ISR shapes (a member missing, one extra member, only a prefix of the partitions), changed "
+             "replication factor and grown partition count; a case is non-trivial when the real code produced a layout; distinct = distinct op lines",
+        trusted=["murmur3 (twmb) start slot: modelled in Lean (Base.Murmur3), tied by the differential run only; 64-bit int assumed",
+                 "emirpasic/gods treemap Min/Max = least/greatest by the comparator; utils.IntComparator = -1/0/1 (written out in Gen/Place.lean)",
+                 "Go string comparison (bytewise) = Lean String order (code points): equal on valid UTF-8; node ids are ASCII",
+                 "a node id is never the empty string (fillPartitionMapV2 uses \"\" for 'no old replica at this position')"],
+        partial=["C17_v2_total_full (v2 answers for EVERY duplicate-free old layout) is false for the code: proved only for old lists no longer than the replication factor (C17_v2_total); the complement is finding F5 (C17_F5_witness, replayed on the real code)",
+                 "DC spread is proved for the ring algorithm (v1) only; for v2 it is checked by the oracle on every fresh even topology of the runs (no counterexample seen), not proved",
+                 "the balancing quality of v2 (how even the result is) is not part of the property and not proved; only that every balancing step keeps the layout valid"],
+        assumptions=["node ids pairwise different and non-empty (they are map keys)", "replica >= 1"],
+        level_text="Theorems about the executable Lean model of getRebalancedNamespacePartitions (getNodeNameList, interleave, fillPartitionMapV1, fillPartitionMapV2 with moveIfUnbalanced and both comparators), for all inputs: v1 shape, distinct names, DC spread incl. wrap-around, leader balance; refusal iff too few nodes (over the regenerated guards); v2: every answer has exactly `replica` distinct live names per partition for every duplicate-free old layout, and v2 answers (no panic) whenever no old list is longer than the replication factor; the answer does not depend on the enumeration order of the node map. The model is tied to the code by regenerated decision expressions (guards, ring slot/step, name index, comparators, thresholds, move budget) and by 5k-1M differential evaluations per run, every op also judged by an independent Go oracle.",
+        level_note="F5 (nil.(loadItem) panic of fillPartitionMapV2 for an old ISR list longer than the replication factor) is reproduced on the unchanged tree and listed as a known finding; v2 DC spread is oracle-checked only.",
+        technique="Lean 4 proofs over an executable model + regenerated decision expressions + differential run and Go oracle on the real layout functions",
+    ),
+    'C18': dict(
+        gens=['Coord', 'Place'],
+        props='ZanVerif.Props.C18',
+        protos=[dict(name='coord', quick_seeds=1, thorough_seeds=4)],
+        rule="sessions of 5..60 decisions on one partition (quick 250 sessions, thorough 4 x 5000): replication factor 1..5, pool of 3..8 data nodes, both balance "
+             "algorithms, valid start layouts (replica count from the quorum minimum to factor+1, sparse replica ids, optionally one pending removal, optionally with "
+             "RemoveTime 0); the environment (alive set, synced / members-ready / still-joined answers of the loopback data-node stubs, grace time elapsed, register "
+             "compare-and-swap ok/fail) is perturbed at random between decisions; decisions: migrate 40%, finish 20%, balance 15%, add 10%, remove 15%; "
+             "a case is non-trivial when the real code attempted a register write; distinct = distinct op lines",
+        trusted=["the in-memory PDRegister and the loopback HTTP stubs of the harness stand for etcd and the data nodes (answers are inputs of the property, any combination is allowed)",
+                 "one partition per namespace in the runs; the layout function inside the decisions is the real one on the Go side and the C17 model on the Lean side",
+                 "goroutine interleaving of checkNamespaces / balance / removing-node handling is serialised by the doChecking / balanceWaiting flags in the real coordinator: decisions are atomic steps here",
+                 "rebalanceNamespace is run with a monitor channel that is closed at the first register write, so one call performs at most one write and none of its 5 s waits is taken"],
+        partial=["C18_no_removal_when_majority_dead_full is false for the code: removeNamespaceFromNode (operator API RemoveNamespaceFromNode) has no liveness guard - proved for migrate and balance, counterexample C18_remove_unguarded_witness for remove (replayed on the real code: known finding F16)",
+                 "the readiness clause of C18_growth for `add` holds through its only caller (addNodeToNamespaceAndWaitReady, inside balance); addNamespaceToNode itself has no gate",
+                 "doCheckNamespaces' own scheduling (wait intervals, the aliveCount > Replica trimming path via decideUnwantedRaftNode) and processRemovingNodes are not driven; their writes go through the modelled removeNamespaceFromNode / addNamespaceToNode"],
+        assumptions=["start info valid (Inv): <= 1 removal pending, ISR a strict majority, raft nodes pairwise different, ids <= MaxRaftID"],
+        level_text="Theorems about the executable Lean model of handleNamespaceMigrate, addNamespaceToNode, removeNamespaceFromNode, removeNamespaceFromRemovings and rebalanceNamespace (one-partition namespace), for every valid start info and every sequence of environments (alive set, data-node answers, CAS result, ANY answer of the layout function) and decisions: every info handed to the register has <= 1 pending removal, a duplicate-free ISR that is a strict majority of the replication factor (IsISRQuorum proved to be exactly that, even factors included), ids <= MaxRaftID and never reused; a decision adds at most one node, only with no removal pending, after every ISR member reported ready, with id = MaxRaftID+1; migrate and balance never mark a removal without a live majority. All guards are regenerated from the Go source. The model is tied to the code by a differential run of the real decision methods against an in-memory register and loopback data-node stubs (10k-400k decisions per run), each logged write also judged by an independent Go oracle.",
+        level_note="The clause 'never marks a removal when more than half of the replicas are unreachable' fails for removeNamespaceFromNode called through the operator API (no liveness guard): proved counterexample, reproduced on the unchanged tree, listed as known finding F16.",
+        technique="Lean 4 proofs over an executable model + regenerated guards + differential run of the real coordinator methods against an in-memory register and HTTP stubs",
+    ),
 }
 
 # properties not (yet) claimed, with the reason; bin/mkmanifest drops an entry as soon as CHECKS has it
